@@ -59,6 +59,11 @@ enum KeySel {
 #[derive(Clone, Debug)]
 enum Env {
 	PlainInit,
+	/// the plaintext key exchange sent as a JSON-RPC notification (no id): nothing is answered, the
+	/// session must stay as it is
+	PlainInitNotification,
+	/// the key exchange as the only member of an encrypted batch
+	BatchEncInit,
 	Plain(&'static str),
 	Enc(KeySel, &'static str),
 	/// flip one bit of the base64-decoded ciphertext+tag: (first byte | last byte = tag)
@@ -107,6 +112,8 @@ impl Env {
 	fn id(&self) -> String {
 		match self {
 			Env::PlainInit => "plain:init_secure_api".into(),
+			Env::PlainInitNotification => "plain-notification:init_secure_api".into(),
+			Env::BatchEncInit => "batch-of-one-enc-cur:init_secure_api".into(),
 			Env::Plain(m) => format!("plain:{}", m),
 			Env::Enc(KeySel::Cur, m) => format!("enc-cur:{}", m),
 			Env::Enc(KeySel::Prev, m) => format!("enc-prev:{}", m),
@@ -146,7 +153,8 @@ impl Env {
 
 	fn class(&self) -> Class {
 		match self {
-			Env::PlainInit => Class::Init,
+			Env::PlainInit | Env::PlainInitNotification => Class::Init,
+			Env::BatchEncInit => Class::Odd,
 			Env::Enc(KeySel::Cur, _) => Class::Auth,
 			Env::EncInitPositional => Class::Auth,
 			Env::Nested(KeySel::Cur, _) => Class::Auth,
@@ -166,6 +174,7 @@ impl Env {
 			| Env::FlipNonce(..)
 			| Env::OddMethod(_)
 			| Env::BatchEnc(KeySel::Cur)
+			| Env::BatchEncInit
 			| Env::SeqForm
 			| Env::Nested(..)
 			| Env::OddField(_) => (true, false),
@@ -177,7 +186,7 @@ impl Env {
 
 fn alphabet() -> Vec<Env> {
 	// simplest first
-	let mut a = vec![Env::PlainInit];
+	let mut a = vec![Env::PlainInit, Env::PlainInitNotification, Env::BatchEncInit];
 	for m in METHODS.iter() {
 		a.push(Env::Plain(m));
 	}
@@ -289,6 +298,10 @@ struct Obs {
 
 #[derive(Clone, PartialEq, Eq, Hash, Debug, PartialOrd, Ord)]
 struct StateKey {
+	/// a key exchange that the listener does not answer (notification form, member of a batch) has been sent
+	/// since the last answered one: the API object behind the listener may hold another key than the listener
+	/// (that copy is not observable from outside; the client model tracks the history instead)
+	stray_init: bool,
 	gen: u32,
 	has_prev: bool,
 	open: bool,
@@ -316,6 +329,7 @@ struct Session {
 	token: Option<String>,
 	gen: u32,
 	ctr: u64,
+	stray_init: bool,
 }
 
 #[derive(Clone, Debug)]
@@ -366,6 +380,7 @@ impl Session {
 			token: None,
 			gen: 0,
 			ctr: 0,
+			stray_init: false,
 		}
 	}
 
@@ -431,6 +446,7 @@ impl Session {
 
 	fn state_key(&self, o: &Obs) -> StateKey {
 		StateKey {
+			stray_init: self.stray_init,
 			// generations beyond 3 differ from 3 only in the value of the (random) keys
 			gen: std::cmp::min(self.gen, 3),
 			has_prev: self.prev.is_some(),
@@ -504,6 +520,15 @@ impl Session {
 		let shape_key = self.cur.unwrap_or(never);
 		let v: Value = match e {
 			Env::PlainInit => call("init_secure_api"),
+			Env::PlainInitNotification => {
+				let mut v = call("init_secure_api");
+				v.as_object_mut().unwrap().remove("id");
+				v
+			}
+			Env::BatchEncInit => {
+				let (n, b) = seal(&self.cur?, self.next_nonce(), &call("init_secure_api"));
+				json!([envelope("encrypted_request_v3", &n, &b)])
+			}
 			Env::Plain(m) => call(m),
 			Env::Enc(k, m) => {
 				let key = self.key_of(*k)?;
@@ -816,6 +841,10 @@ impl Session {
 			Class::Init => {}
 		}
 		// --- client model
+		if matches!(e, Env::PlainInitNotification | Env::BatchEncInit) {
+			self.stray_init = true;
+		}
+		let gen_before_model = self.gen;
 		match e {
 			Env::PlainInit => {
 				let pk = plain_json
@@ -854,6 +883,10 @@ impl Session {
 					}
 				}
 			}
+		}
+		if self.gen != gen_before_model {
+			// an answered key exchange: listener and API object hold the same key again
+			self.stray_init = false;
 		}
 		// the token may have been replaced: recompute its validity for the state key
 		let after = if self.token.is_some() && after.open && !after.token_ok {
